@@ -3,6 +3,8 @@
         -> req=<hex> ret=ok cbs=<n> [cb=...]* end=<done|cancelled|error>   | fault | assert | fuel
      render <ishead> <interims> <final> <framing> <body>
         -> ok <wf 0|1> <stream hex> <expected " cb=..." text> (the SPEC: HttpSpec.render / expect / wf_response)
+     expectl <limit hex> <ishead> <interims> <final> <framing> <body>
+        -> ok <" cb=..." text>   (the SPEC: HttpSpec.expect_limited = expect within the limit, oversized above it)
      wfnl <ishead> <interims> <final> <framing> <body>
         -> ok <wf_response_nolimits 0|1> <within_limits 0|1>       (the SPEC without / only the two size limits)
      cbok <limit> <status> <bnull 0|1> <bodylen hex> <actual body length hex>
@@ -104,6 +106,10 @@ let () = iter_lines (fun line ->
               p_framing = parse_framing framing; p_body = hexs body } in
     let wf = wf_response (ishead = "1") r in
     print_endline (Printf.sprintf "ok %d %s%s" (if wf then 1 else 0) (hex_of_bytes (render r)) (show_cb (expect r)))
+  | ["expectl"; limit; _ishead; interims; final; framing; body] ->
+    let r = { p_interim = List.map parse_msg (split '|' interims); p_final = parse_msg final;
+              p_framing = parse_framing framing; p_body = hexs body } in
+    print_endline ("ok" ^ show_cb (expect_limited (n_of_hex limit) r))
   | ["wfnl"; ishead; interims; final; framing; body] ->
     let r = { p_interim = List.map parse_msg (split '|' interims); p_final = parse_msg final;
               p_framing = parse_framing framing; p_body = hexs body } in
